@@ -94,6 +94,8 @@ def gen_ops(ctx):
     starts += [rng.randrange(TWO64) for _ in range(10 if quick else 200)]
     for s in starts:
         ops.append((f"alloc {s} {rng.randrange(3, 9)}", "alloc", s))
+    for s in (TWO63 - 300, TWO64 - 300, rng.randrange(TWO64)):
+        ops.append((f"alloc {s} 700", "alloc", s))   # long runs: any short period of the IDs shows up as a repeated ID
     # --- clientConn pending-calls logic
     for i in range(1200 if quick else 20000):
         hostile = i % 5 == 0
